@@ -173,7 +173,7 @@ def gen_broker_case(rng, stream='valid', n_ops=None, exact=False, fee=None, npf=
             q = rng.choice([rng.randint(-200, 200), rng.randint(-5, 5), rng.randint(1, 300)])
             if q == 0 and rng.random() < 0.7:
                 q = 1
-            ops.append(['submit', p, rng.choice(assets), q])
+            ops.append(['submit', p, rng.choice(assets), q] + ([rng.choice([1.25, -3.0, 0.5, 100.0, 0.0])] if rng.random() < 0.25 else []))
             pending[p] = True
         elif r < 0.92:
             t = gen_time(rng, t, 'boundary' if stream == 'boundary' else 'mix')
@@ -192,7 +192,9 @@ def gen_broker_case(rng, stream='valid', n_ops=None, exact=False, fee=None, npf=
             else:
                 ops.append([k])
     return {'kind': 'broker', 'stream': stream + (':exact' if exact else ''),
-            'cfg': {'start': start, 'base': 'USD', 'funds': funds, 'fee': fee, 'pre': 1},
+            'cfg': {'start': start, 'base': 'USD', 'funds': funds, 'fee': fee, 'pre': 1,
+                    # the exchange object has its own start argument (the documented hours do not depend on it)
+                    'exch_start': (start + rng.choice([86400, 10 * 86400, 400 * 86400, -86400, 3600]) if rng.random() < 0.3 else None)},
             'quotes': quotes, 'ops': ops, 'exact': exact, 'assets': assets}
 
 
